@@ -413,3 +413,105 @@ func c03Drive(args []string) int {
 }
 
 func init() { cmds["c03-drive"] = c03Drive }
+
+// ---- Templates.tla cases: every reference graph over three templates
+
+type tplBody struct {
+	Hop string `json:"hop"`
+	Tgt string `json:"tgt"`
+}
+type tplCase struct {
+	Body   map[string]tplBody `json:"body"`
+	Status string             `json:"status"`
+	Cyclic bool               `json:"cyclic"`
+}
+
+// renderTplBody: the concrete declaration of one template; variant picks among the child / dyn positions
+func renderTplBody(b tplBody, variant int) string {
+	ref := `{"template": ` + jstr(b.Tgt) + `}`
+	switch b.Hop {
+	case "ref":
+		return ref
+	case "child":
+		switch variant % 3 {
+		case 0:
+			return `{"object": {"g": ` + ref + `}}`
+		case 1:
+			return `{"array": [` + ref + `]}`
+		default:
+			return `{"custom_func": {"name": "concat", "args": [{"const": "x"}, ` + ref + `]}}`
+		}
+	case "dyn":
+		if variant%2 == 0 {
+			return `{"xpath_dynamic": ` + ref + `}`
+		}
+		return `{"xpath_dynamic": {"custom_func": {"name": "concat", "args": [` + ref + `]}}}`
+	}
+	return `{"const": "v"}`
+}
+
+// c03-templates <cases.ndjson>
+func c03Templates(args []string) int {
+	sum := newSummary()
+	nviol := 0
+	err := readLines(args[0], func(line []byte) error {
+		var c tplCase
+		if e := json.Unmarshal(line, &c); e != nil {
+			return e
+		}
+		for variant := 0; variant < 6; variant++ {
+			var names []string
+			for k := range c.Body {
+				names = append(names, k)
+			}
+			sort.Strings(names)
+			decls := []string{`"FINAL_OUTPUT": {"object": {"f": {"template": "A"}}}`}
+			for _, k := range names {
+				decls = append(decls, jstr(k)+": "+renderTplBody(c.Body[k], variant))
+			}
+			schema := `{"parser_settings": {"version": "omni.2.1", "file_format_type": "json"}, "transform_declarations": {` + strings.Join(decls, ", ") + `}}`
+			emit(M{"kind": "progress", "schema": schema})
+			var e error
+			var sch omniparser.Schema
+			pv, hung := guarded(10*time.Second, func() { sch, e = omniparser.NewSchema("s", strings.NewReader(schema)) })
+			sum.eval(c.Cyclic, M{"s": schema})
+			msg := ""
+			switch {
+			case hung:
+				msg = "NewSchema did not return within 10 s"
+			case pv != "":
+				msg = "NewSchema panicked: " + pv
+			case c.Cyclic && e == nil:
+				msg = "a schema whose template references form a cycle reachable from FINAL_OUTPUT was accepted"
+			case !c.Cyclic && e != nil && strings.Contains(e.Error(), "circular"):
+				msg = "a schema without a reference cycle was rejected as circular: " + e.Error()
+			}
+			if msg == "" && e == nil && sch != nil {
+				out := runTranscript(sch, strings.NewReader(`[{"v": "a"}]`), RunOpts{MaxReads: 5, PerCall: 10 * time.Second})
+				if out.Panic != "" || out.Timeout {
+					msg = fmt.Sprintf("transform with the accepted schema: panic=%q timeout=%v", out.Panic, out.Timeout)
+				}
+			}
+			if msg != "" {
+				nviol++
+				if nviol <= 20 {
+					violation("C03", "template-expansion", msg+": "+schema, M{"schema": schema, "case": c})
+				}
+				if hung {
+					return fmt.Errorf("a goroutine is stuck inside NewSchema; stopping")
+				}
+			}
+		}
+		sum.sample(M{"templates": c.Body, "cyclic": c.Cyclic})
+		return nil
+	})
+	if err != nil && nviol == 0 {
+		fmt.Println("error:", err)
+		return 3
+	}
+	sum.inc("mismatches", nviol)
+	sum.done()
+	return 0
+}
+
+func init() { cmds["c03-templates"] = c03Templates }
